@@ -56,21 +56,35 @@ def run(prog, rep, tier):
                     continue
                 if kind in ("S", "SE") and f.name == "__init__":
                     continue
-                rule = {"P": "M1.param", "PE": "M1.param", "S": "M2.self", "SE": "M2.self", "D": "M5.default"}[kind]
+                rule = {"P": "M1.param", "PE": "M1.param", "S": "M2.self", "SE": "M2.self", "D": "M5.default", "G": "M5.module-state"}[kind]
                 msg = "%s %s an object reachable from %s `%s` of %s%s" % (
                     w.how, "may write" if may else "writes", {"P": "parameter", "PE": "an element of parameter", "S": "self attribute",
-                                                            "SE": "an element of self attribute", "D": "the default value of"}[kind], name, f.qname, via)
+                                                            "SE": "an element of self attribute", "D": "the default value of", "G": "module-level object"}[kind], name, f.qname, via)
                 if note_only:
                     rep.notes.append("NOTE drf: " + msg)
                 else:
                     rep.bad(rule, site_where(w.site), msg)
                     viol = True
+        # a factory's returned callable is part of the API surface: what does *it* return?
+        from ..core import Closure
+        if isinstance(summ.ret, Closure):
+            clo = summ.ret
+            k = len(clo.node.args.args)
+            try:
+                r2 = O.call_closure(clo, [OW.OV([OW.IMM], kind="int")] * k, {}, clo.node, {}, O.module_ctx(f.module))
+                shared = {l for l in OW.deep_labels(r2) if isinstance(l, tuple) and OW.strip_maybe(l)[0] in ("G", "P", "D")}
+                if shared:
+                    rep.bad("M4.return", fwhere(f), "the callable returned by %s hands out %s: results of different calls share storage" % (
+                        f.name, ", ".join("%s `%s`" % ({"G": "a view of module-level object", "P": "a view of parameter", "D": "a default object"}[OW.strip_maybe(l)[0]], l[1]) for l in sorted(shared, key=str))))
+                    viol = True
+            except Inconclusive:
+                pass
         # M4
         if summ.ret is not None and f.name != "__init__":
             n_ret += 1
             top = OW.labels_of(summ.ret) if not isinstance(summ.ret, OW.ObjV) else set()
-            deep = {l for l in OW.deep_labels(summ.ret) if isinstance(l, tuple) and OW.strip_maybe(l)[0] in ("P", "S")}
-            bad = {l for l in (OW.caller_owned(top) | deep) if OW.strip_maybe(l)[0] in ("P", "S", "D") or l in OW.caller_owned(top)}
+            deep = {l for l in OW.deep_labels(summ.ret) if isinstance(l, tuple) and OW.strip_maybe(l)[0] in ("P", "S", "G")}
+            bad = {l for l in (OW.caller_owned(top) | deep) if OW.strip_maybe(l)[0] in ("P", "S", "D", "G") or l in OW.caller_owned(top)}
             if isinstance(summ.ret, OW.ObjV) and summ.ret.tag == "self":
                 bad = {("S", "<self>")}
             if bad and f.qname not in EXEMPT_RETURN:
@@ -80,7 +94,7 @@ def run(prog, rep, tier):
                     rep.bad("M4.return", fwhere(f), "the returned object %s %s" % (
                         "may alias" if all(l[0].endswith("?") for l in bad) else "aliases",
                         ", ".join("%s `%s`" % ({"P": "parameter", "PE": "an element of parameter", "S": "self attribute", "SE": "an element of self attribute",
-                                                 "D": "default of"}[OW.strip_maybe(l)[0]], l[1]) for l in sorted(bad, key=str))))
+                                                 "D": "default of", "G": "module-level object"}[OW.strip_maybe(l)[0]], l[1]) for l in sorted(bad, key=str))))
                     viol = True
             elif bad:
                 rep.notes.append("exempt return %s: %s" % (f.qname, EXEMPT_RETURN[f.qname]))
